@@ -5,6 +5,7 @@ import SimProc.Proofs.C03WFloor
 import SimProc.Proofs.C03XCons
 import SimProc.Proofs.C03XSwv
 import SimProc.Props.C05
+import SimProc.Proofs.C03ZWorld
 namespace SimProc
 namespace C03W
 open World FloorCoreL C03
@@ -388,7 +389,7 @@ theorem SC.giveOK {w : World} (hs : SC w) (x : Nat) : C02V.GiveOK w x := by
       rw [C02V.st_kind] at hk
       refine ih ?_
       rw [C02V.st_group, C02V.st_gin]
-      exact ((hs.groupOK hy).2.1 hk).1
+      exact ((hs.groupOK hy).1 hk).1
     | goutput y g z u hk hz _ ih =>
       intro _
       rw [C02V.st_down] at hz
@@ -531,37 +532,42 @@ theorem cReach_fuel {w : World} {x : Nat} : ∀ (F n b y : Nat), costLe n w b y 
         exact Or.inr ⟨z, hz, this⟩
 
 theorem same_tryGive {w : World} (hs : SC w) (hst : StkOK w) {x : Nat} (hx : x < w.devs.length)
-    (p : Nat) : SameD x w (World.tryList givePart w (w.sortedDown x) p).1 := by
+    (p : Nat) (hp : p < w.parts.length)
+    (hcs : ∀ y ∈ (w.dev x).down, consS w.fuel w y (w.part p).stack = true) :
+    SameD x w (World.tryList givePart w (w.sortedDown x) p).1 := by
   -- `givePart` uses the fuel of the world it is called in; the number of devices never changes
   have key : ∀ (l : List Nat) (w0 : World), HK w0 → StkOK w0 → w0.devs.length = w.devs.length →
-      (∀ y ∈ l, (w0.dev y).kind ≠ .source ∧ cReach w.fuel w0 y x = false) →
+      p < w0.parts.length →
+      (∀ y ∈ l, (w0.dev y).kind ≠ .source ∧ cReach w.fuel w0 y x = false ∧
+        consS w.fuel w0 y (w0.part p).stack = true) →
       SameD x w0 (World.tryList givePart w0 l p).1 := by
     intro l
     induction l with
-    | nil => intro w0 _ _ _ _; exact .refl x w0
+    | nil => intro w0 _ _ _ _ _; exact .refl x w0
     | cons y ys ihl =>
-      intro w0 hw hs0 hn hl
+      intro w0 hw hs0 hn hp0 hl
       rw [World.tryList]
       have h1 : SameD x w0 (givePart w0 y p).1 := by
         unfold World.givePart
         rw [fuel_of_len hn]
-        exact same_give_ctrl x w.fuel w0 y p hw hs0 (hl y (List.mem_cons_self ..)).1
-          (hl y (List.mem_cons_self ..)).2
+        exact same_give_ctrl x w.fuel w0 y p hw hs0 hp0 (hl y (List.mem_cons_self ..)).1
+          (hl y (List.mem_cons_self ..)).2.1 (hl y (List.mem_cons_self ..)).2.2
       rcases hgy : givePart w0 y p with ⟨w1, b⟩
       rw [hgy] at h1
       cases b
       · dsimp only
         have r := C08L.give_refused _ w0 y p w1 hgy
-        refine h1.trans (ihl w1 (hw.of_refused r) (stkOK_refused hs0 r) (h1.len.trans hn) (fun z hz => ?_))
+        refine h1.trans (ihl w1 (hw.of_refused r) (stkOK_refused hs0 r) (h1.len.trans hn)
+          (by rw [r.1]; exact hp0) (fun z hz => ?_))
         have := hl z (List.mem_cons_of_mem _ hz)
-        rw [cReach_refused r, h1.kind z]
+        rw [cReach_refused r, h1.kind z, consS_refused r, part_congr r.1]
         exact this
       · exact h1
-  refine key _ w hs.hk hst rfl ?_
+  refine key _ w hs.hk hst rfl hp ?_
   intro y hy
   have hy' := (C08.sortedDown_mem w x y).mp hy
   obtain ⟨hylt, _⟩ := hs.down_sym hx hy'
-  refine ⟨hs.hk.src' x y hy', ?_⟩
+  refine ⟨hs.hk.src' x y hy', ?_, hcs y hy'⟩
   cases hh : cReach w.fuel w y x with
   | false => rfl
   | true =>
@@ -578,12 +584,12 @@ def LoopPost (w : World) (x : Nat) : Prop :=
     (w.dev x).delay - (w.now - t) > 0 ∨ ∀ y ∈ (w.dev x).down, wouldAcceptN w.fuel w [] [] y q = false
 
 theorem G.bufferLoopG {E : List Nat} (x : Nat) (f : Nat) : ∀ (N : List Nat) (w : World),
-    G (x :: E) N [] w → (w.dev x).kind = .buffer → (w.dev x).buf.length < f → InvB w →
+    G (x :: E) N [] w → (w.dev x).kind = .buffer → (w.dev x).buf.length < f → InvB w → C03Z.GC w →
     G (x :: E) (x :: N) [] (World.bufferLoop f w x) ∧ LoopPost (World.bufferLoop f w x) x := by
   induction f with
   | zero => intro N w _ _ hl; exact absurd hl (Nat.not_lt_zero _)
   | succ f ih =>
-    intro N w h hk hl hI
+    intro N w h hk hl hI hgc
     have hx : x < w.devs.length := kind_lt (by rw [hk]; decide)
     have hmono : ∀ {w' : World}, G (x :: E) N [] w' → G (x :: E) (x :: N) [] w' :=
       fun hw => hw.mono (fun _ h => h) (fun y hy => List.mem_cons_of_mem _ hy) (fun _ h => h)
@@ -591,28 +597,32 @@ theorem G.bufferLoopG {E : List Nat} (x : Nat) (f : Nat) : ∀ (N : List Nat) (w
       fun hnb => C02V.inv_bufferLoop 1 w x (hI hnb) hk (h.sc.giveOK x)
     have hnbL : NoBatch (World.bufferLoop 1 w x) ↔ NoBatch w :=
       noBatch_of_swv (C02V.swv_bufferLoop w 1 x)
-    rw [C05.bufferLoop_succ] at hone hnbL ⊢
+    have hgc1 : C03Z.GC (World.bufferLoop 1 w x) := by
+      exact C03Z.gc_bufferLoop 1 hgc
+        (fun h1 => hI (fun hnb => h1 (oneGrp_noGrp (fun y => noBatch_grp hnb y)))) hk (h.sc.giveOK x)
+    rw [C05.bufferLoop_succ] at hone hnbL hgc1 ⊢
     cases hb : (w.dev x).buf with
     | nil =>
       dsimp only
       exact ⟨hmono h, by unfold LoopPost; rw [hb]; trivial⟩
     | cons a rest =>
       obtain ⟨t, p⟩ := a
-      rw [hb] at hone hnbL
-      dsimp only at hone hnbL ⊢
+      rw [hb] at hone hnbL hgc1
+      dsimp only at hone hnbL hgc1 ⊢
       split
       · next hheld =>
         exact ⟨hmono h, by unfold LoopPost; rw [hb]; exact Or.inl hheld⟩
       · next hheld =>
-        rw [if_neg hheld] at hone hnbL
+        rw [if_neg hheld] at hone hnbL hgc1
         have hpm : p ∈ heldL (w.dev x) :=
           (heldL_mem _ _).mpr (Or.inr (Or.inr (Or.inl ⟨t, by rw [hb]; exact List.mem_cons_self ..⟩)))
         have hp : p < w.parts.length := h.valid.dev x p hpm
         have hT := h.tryGive (w.sortedDown x) p hp (pfree_of_inv hI hpm)
-        have hsame := same_tryGive h.sc h.stk hx p
+        have hsame := same_tryGive h.sc h.stk hx p hp
+          (fun y hy => hgc.cs h.stk hx (by rw [hk]; decide) hpm hy _)
         rcases ht : World.tryList givePart w (w.sortedDown x) p with ⟨w1, b⟩
-        rw [ht] at hT hsame hone hnbL
-        dsimp only at hT hsame hone hnbL
+        rw [ht] at hT hsame hone hnbL hgc1
+        dsimp only at hT hsame hone hnbL hgc1
         obtain ⟨hbuf1, _, _, _, _, hkind1⟩ := core_fields hsame.dev
         cases b
         · -- refused
@@ -628,11 +638,12 @@ theorem G.bufferLoopG {E : List Nat} (x : Nat) (f : Nat) : ∀ (N : List Nat) (w
           rw [fuel_of_len hsame.len]
           exact hno y hy
         · -- released
-          dsimp only at hone hnbL ⊢
+          dsimp only at hone hnbL hgc1 ⊢
           have hI1 : InvB (C05.popHead w1 x (w.leafCount p)) :=
             fun hnb' => hone (fun hn => hnb' (hnbL.mpr hn))
-          unfold C05.popHead at hI1 ⊢
-          dsimp only at hI1 ⊢
+          have hgc2 : C03Z.GC (C05.popHead w1 x (w.leafCount p)) := hgc1
+          unfold C05.popHead at hI1 hgc2 ⊢
+          dsimp only at hI1 hgc2 ⊢
           have hx1 : x < w1.devs.length := by rw [hsame.len]; exact hx
           have h2 : G (x :: E) (x :: N) []
               (w1.modDev x (fun d => { d with level := d.level - w.leafCount p, buf := d.buf.drop 1 })) := by
@@ -658,7 +669,7 @@ theorem G.bufferLoopG {E : List Nat} (x : Nat) (f : Nat) : ∀ (N : List Nat) (w
           have := ih (x :: N) _ h3 (by rw [hd3]; exact hkind1.trans hk)
             (by rw [hd3]; show ((w1.dev x).buf.drop 1).length < f
                 rw [hbuf1, hb]; simp only [List.drop_succ_cons, List.drop_zero]
-                rw [hb] at hl; simp only [List.length_cons] at hl; omega) hI1
+                rw [hb] at hl; simp only [List.length_cons] at hl; omega) hI1 hgc2
           exact ⟨this.1.mono (fun _ h => h) (fun y hy => by
             rcases List.mem_cons.mp hy with rfl | hy
             · exact List.mem_cons_self ..
@@ -689,7 +700,7 @@ def Settled (w : World) : Prop :=
   ∀ x, (w.dev x).kind = .batcher → (w.dev x).output = none → (w.dev x).part = none
 
 theorem G.passPartG {E N : List Nat} {w : World} {x : Nat} (h : G (x :: E) N [] w)
-    (hI : InvB w) (hset : Settled w) : G E N [] (w.passPart x) := by
+    (hI : InvB w) (hset : Settled w) (hgc : C03Z.GC w) : G E N [] (w.passPart x) := by
   have hun : ∀ {N' : List Nat} {w' : World}, G (x :: E) N' [] w' → (∀ q, holdsD (w'.dev x) ≠ some q) →
       G E N' [] w' :=
     fun hw hq => hw.unexempt x (fun y hy => (List.mem_cons.mp hy).imp id id)
@@ -740,7 +751,7 @@ theorem G.passPartG {E N : List Nat} {w : World} {x : Nat} (h : G (x :: E) N [] 
   · -- buffer
     next hk =>
     have hx : x < w.devs.length := kind_lt (by rw [hk]; decide)
-    obtain ⟨h1, hpost⟩ := G.bufferLoopG x ((w.dev x).buf.length + 1) N w h hk (Nat.lt_succ_self _) hI
+    obtain ⟨h1, hpost⟩ := G.bufferLoopG x ((w.dev x).buf.length + 1) N w h hk (Nat.lt_succ_self _) hI hgc
     have hk1 : ((World.bufferLoop ((w.dev x).buf.length + 1) w x).dev x).kind = .buffer := by
       rw [kind_of_st (C02V.st_bufferLoop _ w x)]; exact hk
     generalize World.bufferLoop ((w.dev x).buf.length + 1) w x = w1 at h1 hpost hk1
